@@ -66,8 +66,8 @@ Strategies (all JSON round-trippable, forward/backward maps implemented)
                                      class and to its image it closes a directed cycle of one-way unary rules
     StepRemoveRedundantPatterns      RemoveRedundantPatterns with can_be_equivalent() False (a two-way single-child
                                      rule that is not an equivalence rule)
-    VerifiedThroughLonger            verification strategy whose rule has a child (a dependency): class(p) is verified
-                                     through class(xp) = {x} x class(p)
+    VerifiedThroughFactor            verification strategy whose rule has a child (a dependency): class(front + rest)
+                                     is verified through class(rest) when class(front + rest) = {front} x class(rest)
     PrependStatFactory               as PrependRuleFactory, the longer class also tracking the statistic of the
                                      prepended letter when it vanishes on the class (SplitPrefix(local_names=True))
 
@@ -166,7 +166,7 @@ __all__ = [
     "RenameStats",
     "OneWaySwap",
     "StepRemoveRedundantPatterns",
-    "VerifiedThroughLonger",
+    "VerifiedThroughFactor",
     "PrependStatFactory",
     "DUP_NAME",
 ]
@@ -1372,28 +1372,19 @@ class StepRemoveRedundantPatterns(RemoveRedundantPatterns):
         return "remove patterns implied by other patterns (a step of its own)"
 
 
-class VerifiedThroughLonger(VerificationStrategy[Av, Word]):
-    """Verifies a non-atom, non-empty class C = class(p) with a one-letter prefix p for which some other letter x
-    gives the valid factorisation class(xp) = {x} x C.  The rule has the child class(xp): the documented way of
-    marking that the verification depends on another class (its generating function is F_child / atom).  Terms,
-    objects and samples are obtained by listing the words of C."""
+class VerifiedThroughFactor(VerificationStrategy[Av, Word]):
+    """Verifies a non-atom, non-empty class class(front + rest) to which the prefix factorisation applies with a
+    non-empty remaining prefix: class(front + rest) = {front} x class(rest).  The rule has the child class(rest): the
+    documented way of marking that the verification depends on another class (its generating function is
+    atom * F_child).  Terms, objects and samples are obtained by listing the words of the class.  No pack."""
 
     def _dependency(self, comb_class: Av) -> Optional[Av]:
-        if (
-            comb_class.just_prefix
-            or comb_class.is_empty()
-            or len(comb_class.prefix) != 1
-        ):
+        if comb_class.just_prefix or comb_class.is_empty():
             return None
-        front = RemoveFrontOfPrefix()
-        for letter in comb_class.alphabet:
-            if letter == comb_class.prefix:
-                continue
-            longer = comb_class.derive(prefix=letter + comb_class.prefix)
-            children = front.decomposition_function(longer)
-            if children is not None and children[1] == comb_class:
-                return longer
-        return None
+        children = RemoveFrontOfPrefix().decomposition_function(comb_class)
+        if children is None or not children[1].prefix:
+            return None
+        return children[1]
 
     def verified(self, comb_class: Av) -> bool:
         return self._dependency(comb_class) is not None
@@ -1424,21 +1415,21 @@ class VerifiedThroughLonger(VerificationStrategy[Av, Word]):
             raise StrategyDoesNotApply("The combinatorial class is not verified")
         if funcs is None or dep not in funcs:
             raise NotImplementedError("the generating function needs the function of the dependency")
-        atom = sympy.var("x")
+        front = comb_class.prefix[: len(comb_class.prefix) - len(dep.prefix)]
+        atom = sympy.var("x") ** len(front)
         for s in comb_class.stats:
-            if STAT_LETTER[s] == dep.prefix[0]:
-                atom *= sympy.var(s)
-        return funcs[dep] / atom
+            atom *= sympy.var(s) ** front.count(STAT_LETTER[s])
+        return atom * funcs[dep]
 
     def formal_step(self) -> str:
-        return "verified through the class with one more letter in front"
+        return "verified through the class left when the redundant front of the prefix is removed"
 
     @classmethod
-    def from_dict(cls, d: dict) -> "VerifiedThroughLonger":
+    def from_dict(cls, d: dict) -> "VerifiedThroughFactor":
         return cls(**d)
 
     def __repr__(self) -> str:
-        return "VerifiedThroughLonger()"
+        return "VerifiedThroughFactor()"
 
 
 class PrependStatFactory(_Factory):
